@@ -8,6 +8,13 @@ Three kinds of cases
   custom  other rotation grids G ++ -G (random upper-hemisphere quaternion sets: uniform, equatorial band = many pairs that
           touch only through the antipodal copy, cap, permuted library grids = another point at index 0), through
           HalfRotobjVoronoi directly
+  grid + history   object histories: on ONE grid object a seed-chosen sequence of the public read-only getters of the
+          SphereGrid4Dim and of its HalfRotobjVoronoi (volumes exact/approx, the three matrices with and without flags,
+          grid arrays, upper indices, centres / vertices / regions raw and reduced, reduced_vertices_regions, convex hulls)
+          is executed first - quick: sequences that contain every ordered pair (first getter, second getter), repeated
+          calls, in-place scribbling over returned arrays where the code returns fresh copies - then the three matrices of
+          THAT object go through the same model comparison and per-pair oracle as a fresh grid; every call's result must be
+          bit-identical to the same call on a pristine object; a failing history is shrunk to a minimal call sequence
   poly    the area code alone: spherical polygons (tiny faces down to diameter 2e-6, the faces that made the pre-repair
           Girard sum negative, ordinary and near-degenerate ones) through sort_points_on_sphere_ccw +
           exact_area_of_spherical_polygon; oracle = fan of van Oosterom-Strackee triangle areas
@@ -43,7 +50,9 @@ try:    # the per-pair geometry is thousands of tiny matrix products: BLAS threa
 except Exception:      # noqa: BLE001
     pass
 
-RULE = ("grid: cube4D and randomQ, quick N in {4..12,17}, thorough every N in 4..60 and {80,120,200,272} (+ randomQ_315); custom: random "
+RULE = ("histories: on one grid object (cube4D / randomQ, N in 4..30, thorough ..60) sequences of public getters containing "
+        "every ordered pair of 20 getters, repeated calls, scribbled copies, then the matrices of that object; "
+        "grid: cube4D and randomQ, quick N in {4..12,17}, thorough every N in 4..60 and {80,120,200,272} (+ randomQ_315); custom: random "
         "double covers (uniform / equatorial band / cap / permuted library grid), N in 4..14 (thorough ..40), seeds from "
         "VERIF_SEED; synth: random 2N x 2N full-sphere matrices on real Voronoi objects, N in 4..7. A grid case is distinct by "
         "its point set and non-trivial when at least one pair of rotations is adjacent only through the antipodal copy; a "
@@ -222,11 +231,83 @@ def _convex(pts):
     return all(x > 0 for x in s) or all(x < 0 for x in s)
 
 
+# public read-only getters of the rotation-grid objects: (id, target g = SphereGrid4Dim / h = its HalfRotobjVoronoi, method,
+# kwargs, result may be scribbled over because the unchanged code returns a fresh copy)
+HIST_GETTERS = [
+    ("vol", "g", "get_voronoi_volumes", {}, True),
+    ("vol_approx", "g", "get_voronoi_volumes", {"approx": True}, True),
+    ("vol_h", "h", "get_voronoi_volumes", {}, True),
+    ("adj", "g", "get_voronoi_adjacency", {}, True),
+    ("bord", "g", "get_cell_borders", {}, True),
+    ("dist", "g", "get_center_distances", {}, True),
+    ("adj_full", "g", "get_voronoi_adjacency", {"only_upper": False, "include_opposing_neighbours": False}, True),
+    ("dist_allfold", "g", "get_center_distances", {"only_upper": False, "include_opposing_neighbours": True}, True),
+    ("bord_nofold", "h", "get_cell_borders", {"only_upper": True, "include_opposing_neighbours": False}, True),
+    ("grid_upper", "g", "get_grid_as_array", {}, True),
+    ("grid_all", "g", "get_grid_as_array", {"only_upper": False}, False),
+    ("upper_idx", "g", "get_upper_indices", {}, True),
+    ("centers", "h", "get_all_voronoi_centers", {}, False),
+    ("vertices", "h", "get_all_voronoi_vertices", {}, False),
+    ("vertices_red", "h", "get_all_voronoi_vertices", {"reduced": True}, False),
+    ("regions", "h", "get_all_voronoi_regions", {}, False),
+    ("regions_red", "h", "get_all_voronoi_regions", {"reduced": True}, False),
+    ("red_vr", "h", "get_reduced_vertices_regions", {}, True),
+    ("dim_N", "g", "get_N", {}, False),
+    ("hulls", "h", "get_convex_hulls", {}, False),
+]
+HIST_BY_ID = {x[0]: x for x in HIST_GETTERS}
+FINAL_CALLS = [["adj", False], ["bord", False], ["dist", False]]
+
+
+def _all_pairs_sequence(ids, rng):
+    """a cyclic sequence over `ids` in which every ordered pair (a, b), a == b included, occurs as consecutive calls
+    (Eulerian circuit of the complete digraph with loops, Hierholzer; edge order drawn from rng)"""
+    ids = list(ids)
+    rng.shuffle(ids)
+    out_edges = {a: list(ids) for a in ids}
+    for a in ids:
+        rng.shuffle(out_edges[a])
+    stack, circuit = [ids[0]], []
+    while stack:
+        v = stack[-1]
+        if out_edges[v]:
+            stack.append(out_edges[v].pop())
+        else:
+            circuit.append(stack.pop())
+    return circuit[::-1]
+
+
+def history_cases(ctx):
+    rng = ctx.rng
+    cheap = [x[0] for x in HIST_GETTERS if x[0] != "hulls"]
+    if ctx.quick:
+        euler = [("cube4D", 8), ("randomQ", 9), ("cube4D", 5)]
+        rand = [("cube4D", 12, 40), ("randomQ", 17, 40), ("cube4D", 30, 15), ("randomQ", 4, 40)]
+    else:
+        euler = [("cube4D", 8), ("randomQ", 9), ("cube4D", 5), ("randomQ", 4), ("cube4D", 12), ("randomQ", 12), ("cube4D", 17)]
+        rand = [(a, N, 60) for a in ("cube4D", "randomQ") for N in (4, 6, 7, 10, 11, 13, 17, 20, 24, 30, 40, 60)]
+    for t, (alg, N) in enumerate(euler):
+        ids = cheap + (["hulls"] if t == 0 else [])
+        seq = _all_pairs_sequence(ids, rng)
+        # scribble over a third of the returned copies
+        yield {"kind": "grid", "alg": alg, "N": N, "history": [[i, rng.random() < 0.34] for i in seq] + FINAL_CALLS,
+               "history_kind": "all_ordered_pairs"}
+    for alg, N, L in rand:
+        seq = [rng.choice(cheap) for _ in range(L)]
+        seq[rng.randrange(L)] = "hulls"
+        yield {"kind": "grid", "alg": alg, "N": N, "history": [[i, rng.random() < 0.5] for i in seq] + FINAL_CALLS,
+               "history_kind": "random"}
+    # the production order (FullGrid.get_full_prefactors / io.py): volumes first, then the matrices
+    for alg, N in (("cube4D", 12), ("randomQ", 9)):
+        yield {"kind": "grid", "alg": alg, "N": N, "history": [["vol", False]] + FINAL_CALLS, "history_kind": "production_order"}
+
+
 def cases(ctx):
     if not ctx.quick:
         _prefetch(ctx, list(grid_cases(ctx)) + list(custom_cases(ctx)))
     yield from grid_cases(ctx)
     yield from custom_cases(ctx)
+    yield from history_cases(ctx)
     yield from poly_cases(ctx)
     if _cpu:
         ctx.extra_cov["pool_cpu_s"] = {"total": round(sum(_cpu), 1), "max_single_grid": round(max(_cpu), 1), "grids": len(_cpu)}
@@ -277,13 +358,146 @@ def _full_voronoi(obj, P):
     return fv if fv is not None else RotobjVoronoi(P)
 
 
+# ---- object histories -------------------------------------------------------------------------------------------------
+_pristine = {}
+_fresh_digest = {}
+_geo_cache = {}
+
+
+def _digest(x):
+    """canonical, bit-exact observable of a getter result"""
+    import scipy.sparse as sp
+    if sp.issparse(x):
+        c = x.tocoo()
+        return ("sparse", tuple(int(v) for v in c.shape), str(c.dtype), np.asarray(c.toarray()).tobytes(),
+                np.asarray(c.row, dtype=np.int64).tobytes(), np.asarray(c.col, dtype=np.int64).tobytes())
+    if isinstance(x, np.ndarray):
+        if x.dtype == object:
+            return ("objarray", tuple(_digest(v) for v in x.ravel()))
+        return ("array", x.shape, str(x.dtype), np.ascontiguousarray(x).tobytes())
+    if isinstance(x, (list, tuple)):
+        return (type(x).__name__, tuple(_digest(v) for v in x))
+    if isinstance(x, (int, float, str, bool, np.integer, np.floating)) or x is None:
+        return ("scalar", repr(x))
+    if hasattr(x, "volume") and hasattr(x, "simplices"):      # scipy ConvexHull
+        return ("hull", repr(float(x.volume)), repr(float(x.area)), int(len(x.points)))
+    return ("object", type(x).__name__)
+
+
+def _scribble(x):
+    """overwrite a returned copy in place"""
+    import scipy.sparse as sp
+    if sp.issparse(x):
+        for nm in ("data", "row", "col"):
+            a = getattr(x, nm, None)
+            if isinstance(a, np.ndarray) and a.size:
+                a[...] = 0 if a.dtype != bool else False
+    elif isinstance(x, np.ndarray):
+        if x.dtype != object and x.size and x.flags.writeable:
+            x[...] = -3
+    elif isinstance(x, list):
+        for v in x:
+            _scribble(v)
+        x.clear()
+    elif isinstance(x, tuple):
+        for v in x:
+            _scribble(v)
+
+
+def _call(g, gid, scribble):
+    _, tgt, meth, kw, mutable = HIST_BY_ID[gid]
+    o = g if tgt == "g" else g.get_spherical_voronoi()
+    try:
+        r = getattr(o, meth)(**kw)
+    except Exception as e:      # noqa: BLE001
+        return ("raised", core.errname(e))
+    d = _digest(r)
+    if scribble and mutable:
+        _scribble(r)
+    return d
+
+
+def _fresh_grid(alg, N):
+    """a grid object on which no getter was ever called: deep copy of a pristine factory product (the factory itself when
+    the object cannot be copied)"""
+    import copy
+    from molgri.space.rotobj import SphereGrid4DFactory
+    k = (alg, N)
+    if k not in _pristine:
+        _pristine[k] = SphereGrid4DFactory.create(alg, N)
+    try:
+        # SphereGridNDim forwards unknown attributes through __getattr__, which copy.deepcopy(obj) cannot cope with on a
+        # half-built instance: copy the attribute dictionary and attach it to a bare instance instead
+        src = _pristine[k]
+        new = object.__new__(type(src))
+        object.__setattr__(new, "__dict__", copy.deepcopy(src.__dict__))
+        return new
+    except Exception:      # noqa: BLE001
+        return SphereGrid4DFactory.create(alg, N)
+
+
+def _fresh_result(alg, N, gid):
+    k = (alg, N, gid)
+    if k not in _fresh_digest:
+        _fresh_digest[k] = _call(_fresh_grid(alg, N), gid, False)
+    return _fresh_digest[k]
+
+
+def _run_history(g, alg, N, history):
+    """execute the calls on g; returns the indices of the calls whose result differs from the same call on a pristine object"""
+    bad = []
+    for t, (gid, scr) in enumerate(history):
+        d = _call(g, gid, scr)
+        if d != _fresh_result(alg, N, gid):
+            bad.append(t)
+    return bad
+
+
+def _shrink_history(alg, N, history, t_bad, budget_s=20.0):
+    """minimal call sequence that still makes the call history[t_bad] differ from its pristine result"""
+    import time
+    t0 = time.time()
+    last = list(history[t_bad])
+
+    def fails(prefix):
+        g = _fresh_grid(alg, N)
+        for gid, scr in prefix:
+            _call(g, gid, scr)
+        return _call(g, last[0], False) != _fresh_result(alg, N, last[0])
+    prefix = [list(c) for c in history[:t_bad]]
+    # one earlier call is usually enough
+    seen = []
+    for c in prefix:
+        if c not in seen:
+            seen.append(c)
+    for c in seen:
+        if time.time() - t0 > budget_s:
+            break
+        if fails([c]):
+            return [c, [last[0], False]]
+    # otherwise: drop calls one by one (from the front) while the failure persists
+    i = 0
+    while i < len(prefix) and time.time() - t0 < budget_s:
+        trial = prefix[:i] + prefix[i + 1:]
+        if fails(trial):
+            prefix = trial
+        else:
+            i += 1
+    return prefix + [[last[0], False]]
+
+
 def observe(case, with_geo=True):
     """everything compare() and oracle() need, from the real code (and the independent geometry)"""
     with core.quiet():
         obj, P = _points_of(case)
+        hist_bad = None
+        if case.get("history"):
+            hist_bad = _run_history(obj, case["alg"], case["N"], case["history"])
         n2 = len(P)
         N = n2 // 2
         out = {"P": P, "N": N, "half": {}, "full": {}, "coo": {}, "flags": {}}
+        if hist_bad is not None:
+            out["hist_bad"] = hist_bad
         fv = _full_voronoi(obj, P)
         # record the full-sphere matrix the fold consumes (harness-side wrapper on the instance; the matrix is recomputed
         # directly when the getter did not go through it)
@@ -351,7 +565,15 @@ def observe(case, with_geo=True):
             qd.append((a, b, th, float(distance_between_quaternions(P[a], P[b]))))
         out["qd"] = qd
     if with_geo:
-        out["geo"] = geometry(P, N, out)
+        gk = P.tobytes()
+        if N <= 60 and gk in _geo_cache:
+            out["geo"] = _geo_cache[gk]
+        else:
+            out["geo"] = geometry(P, N, out)
+            if N <= 60:
+                if len(_geo_cache) > 40:
+                    _geo_cache.clear()
+                _geo_cache[gk] = out["geo"]
     return out
 
 
@@ -934,7 +1156,7 @@ def geometry(P, N, out):
 # ------------------------------------------------------------------------------------------------------------------
 def _tag(case):
     if case["kind"] == "grid":
-        return f"{case['alg']}_{case['N']}"
+        return f"{case['alg']}_{case['N']}" + ("(after history)" if case.get("history") else "")
     if case.get("gen") == "perm":
         return f"perm_{case['alg']}_{case['N']}"
     return f"custom_{case.get('gen')}_{len(case['G'])}"
@@ -1006,11 +1228,42 @@ def oracle_poly(ctx, case, out):
         ctx.nt(("poly", hashlib.md5(pts.tobytes()).hexdigest()))
 
 
+def oracle_history(ctx, case, out):
+    """the matrices are a function of the grid, not of what else was asked of the grid object before"""
+    hist = case["history"]
+    ctx.branch("history_" + case.get("history_kind", "replayed"))
+    ctx.branch("history_calls", len(hist))
+    ctx.branch("history_scribbled_copies", sum(1 for gid, scr in hist if scr and HIST_BY_ID[gid][4]))
+    ctx.nt(("history", case["alg"], case["N"], hashlib.md5(json.dumps(hist).encode()).hexdigest()))
+    bad = out.get("hist_bad") or []
+    if not bad:
+        return None
+    t = bad[0]
+    with core.quiet():
+        small = _shrink_history(case["alg"], case["N"], hist, t)
+    gid = hist[t][0]
+    _, tgt, meth, kw, _m = HIST_BY_ID[gid]
+    shown = " -> ".join(f"{HIST_BY_ID[i][2]}({', '.join(f'{k}={v}' for k, v in HIST_BY_ID[i][3].items())})"
+                        + (" [result overwritten in place]" if scr and HIST_BY_ID[i][4] else "") for i, scr in small)
+    shrunk = {"kind": "grid", "alg": case["alg"], "N": case["N"], "history": small, "history_kind": "shrunk"}
+    ctx.fail("C04:history_dependent", f"{_tag(case)}: on ONE grid object the call sequence {shown} makes the last call return something "
+             f"else than on a pristine object (call {t} of a history of {len(hist)} calls; {len(bad)} calls of that history "
+             "differ)", shrunk, "bit-identical to the same call on a pristine grid object",
+             {"first_differing_call": t, "getter": meth, "kwargs": kw, "differing_calls": bad[:20]})
+    return shrunk
+
+
 def oracle(ctx, case, out):
     if case["kind"] == "poly":
         return oracle_poly(ctx, case, out)
     if case["kind"] == "synth":
         return oracle_synth(ctx, case, out)
+    if case.get("history"):
+        shrunk = oracle_history(ctx, case, out)
+        if shrunk is not None and shrunk["history"] != case["history"]:
+            # report the per-pair consequences on the matrices of the object with the minimal history (short replay)
+            case = dict(shrunk, history=shrunk["history"] + [c for c in FINAL_CALLS if c not in shrunk["history"][-1:]])
+            out = observe(case)
     N = out["N"]
     tag = _tag(case)
     mats = {}
